@@ -1,9 +1,189 @@
-import NitroVerif.Model.Codec
+import NitroVerif.Lemmas.Codec
+import NitroVerif.Lemmas.CodecKV
+import NitroVerif.Lemmas.CodecPrefix
+/-!
+  Property C19 — item encoding, file framing and checksums round-trip.
+
+  Model: `NitroVerif.Codec` (item.go EncodeItem/DecodeItem/KVToBytes/KVFromBytes/CompareKV,
+  file.go rawFileWriter/rawFileReader).  The length widths, the "an item follows" test and the
+  key-length width are the generated `Gen.encodeLenWidth`, `Gen.decodeLenWidthV0/V1`,
+  `Gen.decodeHasItem`, `Gen.kvLenWidth`, characterised in `Lemmas/CodecGen.lean`.
+  All theorems are generic in the per-item hash `h` (crc32.ChecksumIEEE in the code).
+-/
 namespace NitroVerif.Props.C19
-open NitroVerif.Codec
-/-- placeholder until the codec proofs are integrated (pipeline smoke test only) -/
-theorem beBytes_length (w n : Nat) : (beBytes w n).length = w := by
-  induction w with
-  | zero => rfl
-  | succ k ih => simp [beBytes, ih]
+open NitroVerif NitroVerif.Codec
+
+/-- Whatever non-empty items (each shorter than 2^32 bytes) are written through the file writer,
+    the v1 reader returns exactly these items, then end-of-stream, its checksum equals the
+    writer's, and it consumes exactly the file (whatever bytes `rest` follow stay unread). -/
+theorem C19_file_roundtrip (h : Bytes → Nat) (items : List Bytes)
+    (hit : ∀ d ∈ items, 0 < d.length ∧ d.length < 2 ^ 32) (rest : Bytes) :
+    readFile h 1 (writeFile items ++ rest) = .ok items (writerChecksum h items) rest := by
+  rw [writeFile_eq_frames, writerChecksum_eq]
+  exact readFile_framed h lenWidth_one items (fun d hd => by have := hit d hd; omega) rest
+
+/-- the file itself (`rest = []`) -/
+theorem C19_file_roundtrip_exact (h : Bytes → Nat) (items : List Bytes)
+    (hit : ∀ d ∈ items, 0 < d.length ∧ d.length < 2 ^ 32) :
+    readFile h 1 (writeFile items) = .ok items (writerChecksum h items) [] := by
+  simpa using C19_file_roundtrip h items hit []
+
+/-- checksum a v0 reader reports: the fold of the per-item sums with the 2-byte length field -/
+def v0Checksum (h : Bytes → Nat) (items : List Bytes) : Nat :=
+  items.foldl (fun acc d => acc ^^^ itemSum h (beBytes 2 d.length) d) 0
+
+/-- A reader given format version 0 decodes files framed with 2-byte lengths. -/
+theorem C19_v0_roundtrip (h : Bytes → Nat) (items : List Bytes)
+    (hit : ∀ d ∈ items, 0 < d.length ∧ d.length < 2 ^ 16) (rest : Bytes) :
+    readFile h 0 (writeFileV0 items ++ rest) = .ok items (v0Checksum h items) rest := by
+  rw [writeFileV0_eq_frames]
+  exact readFile_framed h lenWidth_zero items (fun d hd => by have := hit d hd; omega) rest
+
+/-- KVFromBytes inverts KVToBytes for every key shorter than 2^16 bytes and every value, and the
+    encoded pair satisfies the bounds KVFromBytes/CompareKV slice with. -/
+theorem C19_kv_roundtrip (k v : Bytes) (hk : k.length < 2 ^ 16) :
+    kvFromBytes (kvToBytes k v) = (k, v) ∧ kvWellFormed (kvToBytes k v) = true :=
+  ⟨kvFromBytes_kvToBytes v hk, kvWellFormed_kvToBytes_general k v⟩
+
+/-- CompareKV orders encoded pairs exactly as bytes.Compare orders their keys. -/
+theorem C19_compareKV (k1 v1 k2 v2 : Bytes) (h1 : k1.length < 2 ^ 16) (h2 : k2.length < 2 ^ 16) :
+    compareKV (kvToBytes k1 v1) (kvToBytes k2 v2) = cmpBytes k1 k2 :=
+  compareKV_kvToBytes v1 v2 h1 h2
+
+/-- `cmpBytes` (bytes.Compare) is the lexicographic order: a sign, zero exactly on equal strings,
+    antisymmetric, negative exactly when `a < b` in the lexicographic order of byte lists, and
+    transitive. -/
+theorem C19_cmpBytes_lexicographic :
+    (∀ a b : Bytes, cmpBytes a b = -1 ∨ cmpBytes a b = 0 ∨ cmpBytes a b = 1) ∧
+    (∀ a b : Bytes, cmpBytes a b = 0 ↔ a = b) ∧
+    (∀ a b : Bytes, cmpBytes a b = - cmpBytes b a) ∧
+    (∀ a b : Bytes, cmpBytes a b < 0 ↔ a < b) ∧
+    (∀ a b c : Bytes, cmpBytes a b < 0 → cmpBytes b c < 0 → cmpBytes a c < 0) :=
+  ⟨cmpBytes_range, cmpBytes_eq_zero_iff, cmpBytes_antisymm, cmpBytes_neg_iff_lt,
+   fun _ _ _ => cmpBytes_trans⟩
+
+/-! ### the guards of the code, as they are -/
+
+/-- `l > 0` guard of DecodeItem: a zero-length item IS the terminator.  Written in the middle of a
+    stream it ends the stream there: the reader returns the items before it and leaves the rest of
+    the file unread.  (The writer's checksum still covers `ys`, so the two checksums differ in
+    general — this is what the hypothesis `0 < d.length` of `C19_file_roundtrip` excludes.) -/
+theorem C19_empty_item_is_terminator (h : Bytes → Nat) (xs ys : List Bytes)
+    (hit : ∀ d ∈ xs, 0 < d.length ∧ d.length < 2 ^ 32) (rest : Bytes) :
+    readFile h 1 (writeFile (xs ++ [[]] ++ ys) ++ rest)
+      = .ok xs (writerChecksum h xs) (writeFile ys ++ rest) := by
+  have : writeFile (xs ++ [[]] ++ ys) ++ rest = writeFile xs ++ (writeFile ys ++ rest) := by
+    simp [writeFile, List.flatMap_append, List.append_assoc]
+  rw [this]
+  exact C19_file_roundtrip h xs hit _
+
+/-- the 4-byte (resp. 2-byte) length field holds the length modulo 2^32 (resp. 2^16):
+    `uint32(l)` in allocItem / `PutUint32` -/
+theorem C19_length_field_wraps (w L : Nat) : beVal (beBytes w L) = L % 256 ^ w :=
+  beVal_beBytes w L
+
+/-- `uint16(klen)` in KVToBytes: for ANY key length the stored key length is `klen mod 2^16`, and
+    KVFromBytes splits the concatenation `k ++ v` at that point. -/
+theorem C19_long_key_truncates (k v : Bytes) :
+    kvFromBytes (kvToBytes k v)
+      = ((k ++ v).take (k.length % 2 ^ 16), (k ++ v).drop (k.length % 2 ^ 16)) :=
+  kvFromBytes_kvToBytes_general k v
+
+/-- consequence: a key of 2^16 bytes or more does NOT round-trip (the key read back is shorter) -/
+theorem C19_long_key_not_roundtrip (k v : Bytes) (hk : 2 ^ 16 ≤ k.length) :
+    (kvFromBytes (kvToBytes k v)).1.length = k.length % 2 ^ 16 ∧
+    (kvFromBytes (kvToBytes k v)).1 ≠ k := by
+  have hlt : k.length % 2 ^ 16 < 2 ^ 16 := Nat.mod_lt _ (by decide)
+  have hlen : (kvFromBytes (kvToBytes k v)).1.length = k.length % 2 ^ 16 := by
+    rw [C19_long_key_truncates]
+    simp only [List.length_take, List.length_append]
+    omega
+  refine ⟨hlen, fun he => ?_⟩
+  rw [he] at hlen
+  omega
+
+/-- `Close` writes the terminator through `WriteItem` (`Gen.skeleton_rawFileWriterClose`), which
+    also folds the terminator's sum into the writer's checksum: `Checksum()` read AFTER `Close`
+    is off by `itemSum h (encodeLen 0) []` from what the reader reports (the reader excludes the
+    terminator).  StoreToDisk reads the checksums before the deferred `Close`, which is the value
+    `writerChecksum` models. -/
+theorem C19_checksum_after_close (h : Bytes → Nat) (items : List Bytes) :
+    writerChecksum h (items ++ [[]]) = writerChecksum h items ^^^ itemSum h (encodeLen 0) [] := by
+  have _hskel := GenLemmas.skeleton_rawFileWriterClose_ok
+  simp [writerChecksum, List.foldl_append]
+
+/-! ### truncated files (for C11 / C12) -/
+
+/-- Every PROPER prefix of a written file makes the reader fail (never `.ok`), and the items it
+    had decoded before failing are a prefix of the written items. -/
+theorem C19_proper_prefix_never_ok (h : Bytes → Nat) (items : List Bytes)
+    (hit : ∀ d ∈ items, 0 < d.length ∧ d.length < 2 ^ 32)
+    (p : Bytes) (hp : p <+: writeFile items) (hne : p ≠ writeFile items) :
+    ∃ before, readFile h 1 p = .err before ∧ before <+: items := by
+  obtain ⟨before, hr⟩ := decode_proper_prefix_errors h items hit p hp hne
+  exact ⟨before, hr, readFile_prefix_items h items hit p hp hne before hr⟩
+
+/-! ### non-vacuity: concrete byte strings, including payloads that look like length fields or
+    like the terminator -/
+
+/-- a payload of four zero bytes (= the terminator's image) and one that looks like a length -/
+def sampleItems : List Bytes := [[0, 0, 0, 0], [0, 0, 0, 2, 7], [255], [0]]
+
+example : ∀ d ∈ sampleItems, 0 < d.length ∧ d.length < 2 ^ 32 := by decide
+
+/-- TEST (by evaluation): the bytes of the sample file -/
+example : writeFile sampleItems =
+    [0,0,0,4, 0,0,0,0,  0,0,0,5, 0,0,0,2,7,  0,0,0,1, 255,  0,0,0,1, 0,  0,0,0,0] := by decide
+
+example (h : Bytes → Nat) :
+    readFile h 1 (writeFile sampleItems) = .ok sampleItems (writerChecksum h sampleItems) [] :=
+  C19_file_roundtrip_exact h sampleItems (by decide)
+
+example (h : Bytes → Nat) :
+    readFile h 0 (writeFileV0 sampleItems ++ [9, 9]) = .ok sampleItems (v0Checksum h sampleItems) [9, 9] :=
+  C19_v0_roundtrip h sampleItems (by decide) [9, 9]
+
+/-- TEST: the same file read with the wrong version does not give the items back -/
+example : readFile (fun _ => 0) 0 (writeFile sampleItems) = .ok [] 0
+    [0,4, 0,0,0,0,  0,0,0,5, 0,0,0,2,7,  0,0,0,1, 255,  0,0,0,1, 0,  0,0,0,0] := by decide
+
+example : kvFromBytes (kvToBytes [1, 0] [0, 0]) = ([1, 0], [0, 0]) :=
+  (C19_kv_roundtrip [1, 0] [0, 0] (by decide)).1
+
+/-- TEST: layout of an encoded pair (2-byte little-endian key length) -/
+example : kvToBytes [1, 0] [0, 0] = [2, 0, 1, 0, 0, 0] := by decide
+
+example : compareKV (kvToBytes [1, 2] [9]) (kvToBytes [1, 3] []) = cmpBytes [1, 2] [1, 3] :=
+  C19_compareKV _ _ _ _ (by decide) (by decide)
+
+/-- TEST: values differ, keys equal → 0; key is a proper prefix → -1 -/
+example : compareKV (kvToBytes [1, 2] [9]) (kvToBytes [1, 2] [7, 7]) = 0 := by decide
+example : compareKV (kvToBytes [1] [9]) (kvToBytes [1, 0] []) = -1 := by decide
+
+example (h : Bytes → Nat) :
+    readFile h 1 (writeFile ([[5]] ++ [[]] ++ [[6]])) = .ok [[5]] (writerChecksum h [[5]]) (writeFile [[6]]) := by
+  simpa using C19_empty_item_is_terminator h [[5]] [[6]] (by decide) []
+
+/-- a key of 2^16 + 3 bytes reads back as a 3-byte key -/
+example (v : Bytes) :
+    (kvFromBytes (kvToBytes (List.replicate (2 ^ 16 + 3) 1) v)).1.length = 3 := by
+  have hk : (List.replicate (2 ^ 16 + 3) (1 : UInt8)).length = 2 ^ 16 + 3 := List.length_replicate
+  generalize List.replicate (2 ^ 16 + 3) (1 : UInt8) = k at hk
+  rw [(C19_long_key_not_roundtrip k v (by omega)).1, hk]
+
+/-- the 9 proper prefixes of a one-item file: all rejected -/
+example (h : Bytes → Nat) (n : Nat) (hn : n < 9) :
+    ∃ before, readFile h 1 ((writeFile [[0, 0, 0, 0]]).take n) = .err before ∧ before <+: [[0, 0, 0, 0]] := by
+  apply C19_proper_prefix_never_ok h [[0, 0, 0, 0]] (by decide)
+  · exact List.take_prefix _ _
+  · intro he
+    have := congrArg List.length he
+    rw [List.length_take] at this
+    have h12 : (writeFile [[0, 0, 0, 0]]).length = 12 := by decide
+    omega
+
+/-- TEST: cutting inside the payload of zeros -/
+example : readFile (fun _ => 0) 1 [0,0,0,4, 0,0,0,0] = .ok [[0,0,0,0]] 0 [] → False := by decide
+example : readFile (fun _ => 0) 1 [0,0,0,4, 0,0,0,0, 0,0,0] = .err [[0,0,0,0]] := by decide
+
 end NitroVerif.Props.C19
